@@ -12,7 +12,8 @@ def outputs(chk, thorough):
     d = chk.scratch(tlc.stage())
     if thorough:
         p = os.path.join(d, 'OutputsCases.cfg')
-        open(p, 'w').write(open(p).read().replace('MaxLen = 3', 'MaxLen = 4'))
+        cfg = open(p).read().replace('MaxLen = 3', 'MaxLen = 4')
+        open(p, 'w').write(cfg)
     r = tlc.run(d, 'OutputsCases', 'OutputsCases.cfg', workers=1, timeout=1200, heap='8g')
     p = os.path.join(d, 'outputs_cases.json')
     if not os.path.exists(p):
